@@ -8,6 +8,14 @@ every schedule of short writes / EAGAINs / socket errors and every fragmentation
 and over every `env`: what `strptime` accepts, and what the Irc object queues in reaction to a
 message *given everything it was fed before* (any deterministic Irc), provided no exception
 escapes its `feedMsg` / `takeMsg` (`NoEscape env`; C07 derives that from the firewall).
+
+Connections come in *epochs*: a message may make the Irc call `driver.reconnect()` (`env.reconnects`:
+`ERROR :Closing link`, an STS policy …), a socket error schedules a reconnect that a `tick` makes
+due.  Since fix 9171ff7 `reconnect()` empties both buffers and `_read` drops the rest of the chunk it
+was processing.  `wire`, `taken`, `queued`, `rx`, `fed` are those of the *current* connection, so the
+invariants below are statements about every single connection; the explicit chunk-independence
+theorems are stated for streams in which nothing makes the Irc reconnect (`NoReconnect env`), since a
+reconnect point is, by design, where chunk boundaries matter (`reconnect_drops_rest_of_chunk`).
 -/
 import LimnoriaModel.C11.Lemmas
 namespace C11
@@ -107,12 +115,12 @@ theorem read_is_function_of_stream (env : Env) (hne : NoEscape env) (ops : List 
 /-- **Chunk independence**: two partitions of the same byte stream into non-empty `recv()` results,
 each followed by a pass of the driver loop, deliver the same messages and leave the same
 in-buffer — including partitions that cut inside a multi-byte character or between CR and LF. -/
-theorem read_chunk_independent (env : Env) (hne : NoEscape env) (cs₁ cs₂ : List Bytes)
+theorem read_chunk_independent (env : Env) (hne : NoEscape env) (hnr : NoReconnect env) (cs₁ cs₂ : List Bytes)
     (h₁ : ∀ c ∈ cs₁, c ≠ []) (h₂ : ∀ c ∈ cs₂, c ≠ []) (h : cs₁.flatten = cs₂.flatten) :
     (runOps env init (chunkOps cs₁)).fed = (runOps env init (chunkOps cs₂)).fed ∧
     (runOps env init (chunkOps cs₁)).inbuffer = (runOps env init (chunkOps cs₂)).inbuffer := by
-  obtain ⟨_, _, x1⟩ := calm_chunkOps hne cs₁ h₁ init calm_init rfl
-  obtain ⟨_, _, x2⟩ := calm_chunkOps hne cs₂ h₂ init calm_init rfl
+  obtain ⟨_, _, x1⟩ := calm_chunkOps hne hnr cs₁ h₁ init calm_init rfl
+  obtain ⟨_, _, x2⟩ := calm_chunkOps hne hnr cs₂ h₂ init calm_init rfl
   obtain ⟨f1, b1⟩ := read_is_function_of_stream env hne (chunkOps cs₁)
   obtain ⟨f2, b2⟩ := read_is_function_of_stream env hne (chunkOps cs₂)
   have hx : (runOps env init (chunkOps cs₁)).rx = (runOps env init (chunkOps cs₂)).rx := by
@@ -121,22 +129,22 @@ theorem read_chunk_independent (env : Env) (hne : NoEscape env) (cs₁ cs₂ : L
   exact ⟨rfl, rfl⟩
 
 /-- … and what is delivered is the message sequence of the complete lines of the whole stream. -/
-theorem read_delivers_lines (env : Env) (hne : NoEscape env) (cs : List Bytes) (h : ∀ c ∈ cs, c ≠ []) :
+theorem read_delivers_lines (env : Env) (hne : NoEscape env) (hnr : NoReconnect env) (cs : List Bytes) (h : ∀ c ∈ cs, c ≠ []) :
     (runOps env init (chunkOps cs)).fed = msgsOf env (splitLF cs.flatten).1 ∧
     (runOps env init (chunkOps cs)).inbuffer = (splitLF cs.flatten).2 := by
-  obtain ⟨_, _, x⟩ := calm_chunkOps hne cs h init calm_init rfl
+  obtain ⟨_, _, x⟩ := calm_chunkOps hne hnr cs h init calm_init rfl
   obtain ⟨f, b⟩ := read_is_function_of_stream env hne (chunkOps cs)
   have hx : (runOps env init (chunkOps cs)).rx = cs.flatten := by rw [x]; rfl
   rw [f, b, hx]
   exact ⟨rfl, rfl⟩
 
 /-- the same at the level of `_read` bodies, from any state whose in-buffer holds no LF -/
-theorem read_chunks_from_any_state (env : Env) (hne : NoEscape env) (w : World) (hw : LF ∉ w.inbuffer)
+theorem read_chunks_from_any_state (env : Env) (hne : NoEscape env) (hnr : NoReconnect env) (w : World) (hw : LF ∉ w.inbuffer)
     (cs₁ cs₂ : List Bytes) (h : cs₁.flatten = cs₂.flatten) :
     (feedChunks env w cs₁).fed = (feedChunks env w cs₂).fed ∧
     (feedChunks env w cs₁).inbuffer = (feedChunks env w cs₂).inbuffer := by
-  obtain ⟨a1, a2⟩ := feedChunks_spec hne cs₁ w hw
-  obtain ⟨b1, b2⟩ := feedChunks_spec hne cs₂ w hw
+  obtain ⟨a1, a2⟩ := feedChunks_spec hne hnr cs₁ w hw
+  obtain ⟨b1, b2⟩ := feedChunks_spec hne hnr cs₂ w hw
   rw [a1, a2, b1, b2, h]
   exact ⟨rfl, rfl⟩
 
@@ -151,7 +159,45 @@ theorem framing_exact (b : Bytes) :
 -- "é" cut in the middle and CR | LF cut: three chunkings of `PING :é\r\nPI`
 example : (runOps stubEnv init (chunkOps [[80,73,78,71,32,58,195], [169,13], [10,80,73]])).fed
     = (runOps stubEnv init (chunkOps [[80,73,78,71,32,58,195,169,13,10,80,73]])).fed := by
-  apply (read_chunk_independent stubEnv stubEnv_noEscape _ _ _ _ _).1 <;> simp
+  apply (read_chunk_independent stubEnv stubEnv_noEscape (fun _ _ => rfl) _ _ _ _ _).1 <;> simp
+
+/-- **A reconnect point ends the connection's input**: when a line's message makes the Irc
+reconnect, the remaining lines of that `recv()` chunk are not delivered, and the new connection
+starts with empty buffers, nothing taken and nothing received. -/
+theorem reconnect_drops_rest_of_chunk (env : Env) (hne : NoEscape env) (l : Bytes) (ls : List Bytes)
+    (w : World) (m : C05.Msg) (wait : Bool) (hm : lineMsg env l = some m)
+    (hr : env.reconnects w.allFed m = some wait) :
+    feedLines env (l :: ls) w = reconnect env wait (feedMsg env m w) ∧
+    (feedLines env (l :: ls) w).inbuffer = [] ∧ (feedLines env (l :: ls) w).outbuffer = [] ∧
+    (feedLines env (l :: ls) w).fed = [] ∧ (feedLines env (l :: ls) w).rx = [] ∧
+    (feedLines env (l :: ls) w).wire = [] := by
+  have e : feedLines env (l :: ls) w = reconnect env wait (feedMsg env m w) := by
+    unfold feedLines
+    unfold lineMsg at hm
+    cases h : parseMsg env.timeOk (decode l) with
+    | empty => rw [h] at hm; cases hm
+    | malformed => rw [h] at hm; cases hm
+    | crash e => rw [h] at hm; cases hm
+    | msg m' =>
+      rw [h] at hm
+      have : m' = m := by simpa using hm
+      subst this
+      simp only [hne.1 w.allFed m', hr]
+  rw [e]
+  unfold reconnect
+  cases wait <;> exact ⟨rfl, rfl, rfl, rfl, rfl, rfl⟩
+
+/-- the correspondence environment: the stub Irc reconnects on `ERROR :Closing link…` -/
+def driverEnv : Env := { timeOk := fun _ => true, react := pingPong, reconnects := errorReconnect }
+
+def errLine : Bytes := utf8 "ERROR :Closing link: bye".toList
+def pingLine : Bytes := utf8 "PING :x".toList
+
+-- `ERROR :Closing link` and `PING :x` in one chunk: the PING is dropped, nothing is written
+example : (runOps driverEnv init [.scriptRecv (.data (errLine ++ [LF] ++ pingLine ++ [LF])), .loop]).epoch = 1 ∧
+    (runOps driverEnv init [.scriptRecv (.data (errLine ++ [LF] ++ pingLine ++ [LF])), .loop]).wire = [] ∧
+    (runOps driverEnv init [.scriptRecv (.data (errLine ++ [LF] ++ pingLine ++ [LF])), .loop]).pastWires = [[]] := by
+  decide
 
 /-! ## exception flow -/
 
